@@ -432,6 +432,13 @@ func (s *session) event(typ int32, path string) {
 	s.send(e.b)
 }
 
+// SetHold switches holding of watch notifications on or off (under the lock the sessions read it with).
+func (z *FakeZK) SetHold(on bool) {
+	z.mu.Lock()
+	z.Hold = on
+	z.mu.Unlock()
+}
+
 // DeliverOne sends the oldest held notification; it reports whether there was one.
 func (z *FakeZK) DeliverOne() bool {
 	z.mu.Lock()
